@@ -52,7 +52,8 @@ class TypeRegistry:
         # the latest function will have the final effect
         # signature = (*classes, attr, detector)
 
-        if not detector:
+        if detector is None:
+            # (a detector may be any callable, also one that is falsy)
             if not classes and not attr and not metaclass:
                 raise ValueError(
                     f"register_transformer must provide any of classes, metaclass, attr, detector"
